@@ -5,12 +5,14 @@
                                ignored by the model); m = g (sent), a (address family error,
                                nothing on the wire), w (Conn.WriteTo failed)
      s                         snapshot of the table size
+     q4.<p>.<ms> / q6.<p>.<ms>  call p registered its waiter and is inside its send;  z.<p>.<T|F>  that send returned
+     x.<n>                     n address-error calls one after the other (compressed: BulkFail n)
      r.<hex>                   frame handed to Session.Parse
      w.<p>  t.<p>  e.<p>       wait for return / Timeout / End
    observation:  res=<r>,..;ids=<i>,..;sz=<n>,..;next=<n>
      res/ids in order of the Begin tokens; r = nil|timeout|err|run; id = '-' for mode a
      sz = waiter-table size at every snapshot token, then at the end. *)
-From PV Require Import Base.Text Model.Ping Model.PingFrame Model.PingScript Model.PingKnown.
+From PV Require Import Base.Text Model.Ping Model.PingTrace Model.PingFrame Model.PingScript Model.PingKnown.
 From PV Require Import Spec.PingRFC Spec.PingSpec.
 Open Scope string_scope.
 Open Scope N_scope.
@@ -23,9 +25,19 @@ Definition parse_tok (w : string) : option tok :=
   | [k] => if String.eqb k "s" then Some TSnap else None
   | [k; a] =>
       if String.eqb k "r" then option_map TFrame (bytes_of_tok a)
+      else if String.eqb k "x" then
+        match N_of_dec a with Some n => if n <=? 65536 then Some (TBulk n) else None | None => None end
       else if String.eqb k "w" then option_map TWait (nat_of_dec a)
       else if String.eqb k "t" then option_map TTimeout (nat_of_dec a)
       else if String.eqb k "e" then option_map TEnd (nat_of_dec a)
+      else None
+  | [k; a; m] =>
+      if String.eqb k "z" then
+        match nat_of_dec a, bool_of_tok m with
+        | Some p, Some ok => Some (TSent p ok)
+        | _, _ => None
+        end
+      else if String.eqb k "q4" || String.eqb k "q6" then option_map TReg (nat_of_dec a)
       else None
   | [k; a; m; _] =>
       if String.eqb k "b4" || String.eqb k "b6" then
@@ -80,15 +92,12 @@ Definition obs_of (fix24 : bool) (n0 : N) (ts : list tok) : string :=
 (* ---- spec column: the reference machine of Spec/PingSpec.v driven by the RFC classifier of
    Spec/PingRFC.v; identifiers and next-id are taken from the model (the spec does not say how
    identifiers are chosen) ---- *)
-Fixpoint srun (st : sstate) (es : list sevent) : option sstate :=
-  match es with
-  | [] => Some st
-  | e :: r => match sstep st e with Some st' => srun st' r | None => None end
-  end.
-
 Definition sevents_of (s : state) (t : tok) : list sevent :=
   match t with
-  | TBegin p ok _ => [SBegin p (next s) ok]
+  | TBegin p ok _ => SBegin p (next s) :: (if ok then [] else [SFail p])
+  | TReg p => [SBegin p (next s)]
+  | TSent p ok => if ok then [] else [SFail p]
+  | TBulk _ => []
   | TFrame f => [match rfc_reply_id f with Some i => SReply i | None => SOther end]
   | TWait p => [SEnd p]
   | TEnd p => [SEnd p]
@@ -138,7 +147,19 @@ Definition spec_obs (n0 : N) (ts : list tok) : string :=
 
 (* ---- recorded defect classes (narrow keys, see known_findings.txt) ---- *)
 Definition has_failed_begin (ts : list tok) : bool :=
-  existsb (fun t => match t with TBegin _ false _ => true | _ => false end) ts.
+  existsb (fun t => match t with TBegin _ false _ => true | TSent _ false => true | _ => false end) ts.
+
+(* some state along the run is not young (identifier reused while its first owner is outstanding) *)
+Fixpoint wrap_key (s : state) (ts : list tok) : bool :=
+  known_C19_wrap s ||
+  match ts with
+  | [] => false
+  | t :: r =>
+      match events_of parse_notify s t with
+      | Ok evs => match run FIX24 s evs with Ok s' => wrap_key s' r | _ => false end
+      | _ => false
+      end
+  end.
 
 Definition res_opt_eqb (a : res (option N)) (b : option N) : bool :=
   match a, b with
@@ -156,13 +177,15 @@ Fixpoint frame_key (ts : list tok) : string :=
       else if known_C19_iphdr f then "echo_reply_bad_ip_header"
       else if known_C19_family f then "echo_reply_wrong_icmp_family"
       else if known_C19_totallen f then "echo_reply_beyond_ip4_totallen"
+      else if known_C19_paylen f then "echo_reply_beyond_ip6_payloadlen"
       else "unclassified_frame_divergence"
   | _ :: r => frame_key r
   end.
 
-Definition key_of (ts : list tok) : string :=
+Definition key_of (n0 : N) (ts : list tok) : string :=
   let fk := frame_key ts in
   if negb (String.eqb fk "-") then fk
+  else if wrap_key (init n0) ts then "ping_id_wrap_collision"
   else if negb FIX24 && has_failed_begin ts then "ping_send_fail_leaks_waiter" else "-".
 
 Definition dispatch (kind : string) (args : list string) : string :=
@@ -171,7 +194,7 @@ Definition dispatch (kind : string) (args : list string) : string :=
     | n :: ws =>
         match N_of_dec n, parse_toks ws with
         | Some n0, Some ts =>
-            if n0 <? 65536 then out3 (obs_of FIX24 n0 ts) (spec_obs n0 ts) (key_of ts) else BADARGS
+            if n0 <? 65536 then out3 (obs_of FIX24 n0 ts) (spec_obs n0 ts) (key_of n0 ts) else BADARGS
         | _, _ => BADARGS
         end
     | _ => BADARGS
